@@ -309,6 +309,10 @@ class Runner:
 
     def sanenv(self, logbase):
         e = dict(self.env)
+        # log_path is RELATIVE to the tool's working directory (= self.dir): with a path that has directory components the
+        # sanitizer runtime mkdir()s every prefix at start-up and leaves errno = EEXIST behind, which hides every defect that
+        # depends on a stale errno of 0 (qcow2_read_l1_table returning errno after a short read)
+        logbase = os.path.basename(logbase)
         common = "abort_on_error=1:symbolize=1:log_path=%s:allocator_may_return_null=1:max_allocation_size_mb=1024" % logbase
         e["ASAN_OPTIONS"] = common + ":detect_leaks=0:handle_segv=2:handle_sigbus=2:handle_sigfpe=2:handle_sigill=2:handle_abort=1:detect_stack_use_after_return=0:malloc_context_size=4"
         e["UBSAN_OPTIONS"] = "print_stacktrace=1:log_path=%s" % logbase
@@ -946,6 +950,11 @@ def judge(ev, vd, b, work, bases, U, pl, results, tier, timing):
         "16/32/128 excluded; -n: bits 1/2 excluded); dumpe2fs(8): any status; the other tools document no statuses, the table transcribes their "
         "exit() calls (0/1; debugfs -f: number of failed requests of a <= 16 request script)",
         "inputs are regular files (no block devices); e2fsck runs with E2FSCK_CONFIG=/dev/null and fixed clocks",
+        "reader-bound families (spec/C06Readers.tla): symbolic values are evaluated on the generated base artefacts (undo files of five operations, "
+        "qcow2 images of three profiles, 15 file system profiles); an element whose value does not fit the field or equals the present value does not exist on "
+        "that base; quick enumerates the key / single-field qcow2 / summary catalogues on one base each (rotating with the seed), 2 rings, and samples the pair catalogues",
+        "the sanitizer log path is relative to the tool's working directory, so that the runtime leaves errno untouched at start-up (an absolute log path "
+        "makes it mkdir() every prefix: errno = EEXIST, which hid the stale-errno defect of qcow2_read_l1_table)",
         "known-finding keys are failure signatures (tool : report kind : top three in-tree frames), not universe elements: the universe of a tier is a "
         "seeded sample of a catalogue too large to enumerate with all tools, so a different seed can reach a known defect through another input",
     ]
